@@ -460,7 +460,8 @@ def check_distinct_order(pname, gname, vars_, keys, limit):
     return None
 
 
-AGGS = [("COUNT*", False, None), ("COUNT", False, "v"), ("COUNT", True, "v"), ("COUNT", False, "w"), ("SUM", False, "v"), ("SUM", True, "v"),
+AGGS = [("COUNT*", False, None), ("COUNT*", True, None),  # COUNT(DISTINCT *): the number of different solutions of the group
+         ("COUNT", False, "v"), ("COUNT", True, "v"), ("COUNT", False, "w"), ("SUM", False, "v"), ("SUM", True, "v"),
         ("AVG", False, "v"), ("AVG", True, "v"), ("MIN", False, "v"), ("MAX", False, "v"), ("SAMPLE", False, "v"), ("SAMPLE", False, "w"),
         ("SUM", False, "w"), ("AVG", False, "w"), ("AVG", True, "w"), ("MIN", False, "w"), ("MAX", False, "w"),  # ?w is unbound in some rows of a group (OPTIONAL)
         ("GROUP_CONCAT", False, "w"), ("GROUP_CONCAT", True, "w"), ("GROUP_CONCAT;", False, "w")]
@@ -469,7 +470,7 @@ GROUPINGS = ["implicit", "s", "s v", "STR(?v)", "s STR(?w)", "isIRI(?v)", "(STR(
 
 def agg_text(name, distinct, var):
     if name == "COUNT*":
-        return "COUNT(*)"
+        return "COUNT(DISTINCT *)" if distinct else "COUNT(*)"
     if name == "GROUP_CONCAT;":
         return 'GROUP_CONCAT(?%s; separator="|")' % var
     return "%s(%s?%s)" % (name, "DISTINCT " if distinct else "", var)
@@ -524,7 +525,7 @@ def check_aggregate(pname, gname, grouping, agg, wrap, having):
     for k in order:
         ms = groups[k]
         vals = [m[var] for m in ms if var is not None and var in m]
-        a = aggregate(base_name, distinct, vals, len(ms), sep)
+        a = aggregate(base_name, distinct, vals, len({tuple(sorted(m.items())) for m in ms}) if (distinct and name == "COUNT*") else len(ms), sep)
         if having:
             if a == "ANY" or (isinstance(a, tuple) and a and a[0] in ("ONEOF", "TOKENS")):
                 return "skip"
